@@ -549,6 +549,29 @@ func main() {
 			"task.CloneReplica": true, "s.Replica().SetCloneStatus": true}))
 		addStr("cloneStatusOrder", calls(appf.fn("", "startReplica"), map[string]bool{
 			"s.Replica().SetCloneStatus": true, "CloneReplica": true}))
+		// when a (re)started clone replica clones: whenever the persisted status is not `completed` — in
+		// particular again after a start that died in the middle (`inProgress`)
+		{
+			var conds []string
+			ast.Inspect(appf.fn("", "startReplica"), func(x ast.Node) bool {
+				switch n := x.(type) {
+				case *ast.IfStmt:
+					if strings.Contains(src(n.Cond), "status") || strings.Contains(src(n.Cond), "replicaType") {
+						conds = append(conds, "if "+src(n.Cond))
+					}
+				case *ast.SwitchStmt:
+					conds = append(conds, "switch "+src(n.Tag))
+				case *ast.CaseClause:
+					var l []string
+					for _, e := range n.List {
+						l = append(l, src(e))
+					}
+					conds = append(conds, "case "+strings.Join(l, ","))
+				}
+				return true
+			})
+			addStr("cloneRestartCond", strings.Join(conds, " ; "))
+		}
 		ads := control.fn("Controller", "addReplicaDuringStartNoLock")
 		var conds []string
 		ast.Inspect(ads, func(x ast.Node) bool {
@@ -702,6 +725,22 @@ func main() {
 				return true
 			})
 			addStr("order_"+n, strings.Join(order, " ; "))
+		}
+		// removeDiskNode: the top-level statements after the metadata updates (the parent of the head is
+		// refreshed BEFORE the node is cut out of the active chain)
+		{
+			f := rep.fn("Replica", "removeDiskNode")
+			var tail []string
+			for _, st := range f.Body.List {
+				t := src(st)
+				if strings.Contains(t, "activeDiskData") || strings.Contains(t, "r.info.Parent") || strings.Contains(t, "RemoveIndex") || strings.Contains(t, "delete(r.diskData") {
+					if len(t) > 160 {
+						t = t[:160]
+					}
+					tail = append(tail, strings.Join(strings.Fields(t), " "))
+				}
+			}
+			addStr("removeDiskNodeTail", strings.Join(tail, " ; "))
 		}
 	}
 
